@@ -297,6 +297,12 @@ pub fn run_c12(ctx: &Ctx) -> i32 {
                                 break;
                             }
                         } else if big_at == Some(i) {
+                            if rng.gen_bool(0.5) {
+                                // a command that succeeds silently right in front of it (same segment, mostly)
+                                let qk = format!("quiet-before-big-{}-{}", w, c).into_bytes();
+                                frames.push(wire::store(op::SETQ, &qk, b"q", 0, 0, frames.len() as u32, 0));
+                                reqs.push(None);
+                            }
                             let o = [op::SET, op::SETQ, op::APPEND, op::GET, op::ADDQ][rng.gen_range(0..5)];
                             let v = vec![b'B'; rng.gen_range(4097..9000)];
                             frames.push(wire::store(o, &keys[0], &v, 0, 0, frames.len() as u32, 0));
@@ -452,7 +458,9 @@ pub fn run_c12(ctx: &Ctx) -> i32 {
                                     break;
                                 }
                                 if rs.len() != 1 || rs[0].status != st::TOO_LARGE {
-                                    viols.push(Viol::new(&["C12", "C13"], "oversized-in-pipeline", format!("oversized {} at position {} answered {:?}", op::name(f.opcode), i, rs.iter().map(|r| r.brief()).collect::<Vec<_>>())));
+                                    let after_quiet = i > 0 && matches!(frames[i - 1].opcode, op::SETQ | op::ADDQ | op::GETQ | op::GETKQ | op::DELETEQ | op::APPENDQ);
+                                    let tags: &[&'static str] = if after_quiet { &["C12", "C13", "C19"] } else { &["C12", "C13"] };
+                                    viols.push(Viol::new(tags, "oversized-in-pipeline", format!("oversized {} at position {} answered {:?}", op::name(f.opcode), i, rs.iter().map(|r| r.brief()).collect::<Vec<_>>())));
                                     break;
                                 }
                                 continue;
@@ -476,6 +484,15 @@ pub fn run_c12(ctx: &Ctx) -> i32 {
                                 if let Err(mut v) = m.apply(cmd, *cas, rs.first()) {
                                     if !v.props.contains(&"C12") {
                                         v.props.push("C12"); // in-order execution is what makes the model's prediction apply
+                                    }
+                                    // one connection, one order: an outcome that the client's own order does not
+                                    // explain also refutes C03's "respects each client's own order", and when quiet
+                                    // commands precede it, "only the responses differ" (C19)
+                                    if !v.props.contains(&"C03") {
+                                        v.props.push("C03");
+                                    }
+                                    if frames[..i].iter().any(|g| matches!(g.opcode, op::SETQ | op::ADDQ | op::REPLACEQ | op::APPENDQ | op::PREPENDQ | op::INCRQ | op::DECRQ | op::DELETEQ)) && !v.props.contains(&"C19") {
+                                        v.props.push("C19");
                                     }
                                     v.msg = format!("request #{} in arrival order: {}", i, v.msg);
                                     viols.push(v);
@@ -630,6 +647,10 @@ pub fn slow_body_scenarios(shared: &Mutex<Evidence>, full: bool) {
             grid.push((limit, over, trickle, if trickle { op::SET } else { op::ADD }));
         }
     }
+    // pauses of 1.3 s / 2.5 s inside the body against a 5 s timeout: the server has to wait, discard the
+    // body in full, answer 'too large' and serve the follower
+    grid.push((1024, true, false, op::SET + 0x80));
+    grid.push((3000, true, false, op::ADD + 0x80));
     if full {
         grid.push((1024, true, true, op::APPEND));
         grid.push((2048, true, false, op::SETQ));
@@ -640,10 +661,12 @@ pub fn slow_body_scenarios(shared: &Mutex<Evidence>, full: bool) {
         let hs: Vec<_> = grid
             .iter()
             .enumerate()
-            .map(|(gi, &(limit, over, trickle, opc))| {
+            .map(|(gi, &(limit, over, trickle, opc0))| {
                 s.spawn(move || -> Option<Out> {
                     use std::io::Write;
-                    let srv = Server::start(SrvCfg { idle_s: 1, item_limit: limit, workers: if gi % 2 == 0 { None } else { Some(2) }, ..Default::default() }).ok()?;
+                    let patient = opc0 >= 0x80;
+                    let opc = opc0 & 0x7f;
+                    let srv = Server::start(SrvCfg { idle_s: if patient { 5 } else { 1 }, item_limit: limit, workers: if gi % 2 == 0 { None } else { Some(2) }, ..Default::default() }).ok()?;
                     let canary = format!("smuggled-{}", gi).into_bytes();
                     let mut inner = wire::store(op::SET, &canary, b"from-inside-a-body", 0, 0, 0x5A5A_0001, 0).encode();
                     inner.extend(wire::simple(op::NOOP, 0x5A5A_0002).encode());
@@ -670,6 +693,10 @@ pub fn slow_body_scenarios(shared: &Mutex<Evidence>, full: bool) {
                         std::thread::sleep(Duration::from_millis(450));
                         let _ = c.s.write_all(&bytes[body_at + head_part + trickle_part..body_at + inner_at]);
                         std::thread::sleep(Duration::from_millis(600));
+                    } else if patient {
+                        std::thread::sleep(Duration::from_millis(if gi % 2 == 0 { 1300 } else { 2500 }));
+                        let _ = c.s.write_all(&bytes[body_at + head_part..body_at + inner_at]);
+                        std::thread::sleep(Duration::from_millis(50));
                     } else {
                         std::thread::sleep(Duration::from_millis(1500));
                         let _ = c.s.write_all(&bytes[body_at + head_part..body_at + inner_at]);
@@ -683,7 +710,7 @@ pub fn slow_body_scenarios(shared: &Mutex<Evidence>, full: bool) {
                     let mut obs = Cli::connect(srv.port).ok()?;
                     let hit = ask(&mut obs, &wire::get(op::GET, &canary, 9)).map(|r| r.status == st::OK)?;
                     Some(Out {
-                        name: format!("{} limit={} body={} {}", op::name(opc), limit, value_len + key.len() + 8, if trickle { "trickle" } else { "silence" }),
+                        name: format!("{} limit={} body={} {}{}", op::name(opc), limit, value_len + key.len() + 8, if trickle { "trickle" } else { "silence" }, if patient { " (pause shorter than the 5 s timeout)" } else { "" }),
                         canary: hit,
                         smuggled_opaques: resps.iter().map(|r| r.opaque).filter(|o| *o == 0x5A5A_0001 || *o == 0x5A5A_0002).collect(),
                         end,
@@ -709,6 +736,12 @@ pub fn slow_body_scenarios(shared: &Mutex<Evidence>, full: bool) {
         e.count(&format!("slow_body:{}", if o.end == End::Open { "kept-open" } else { "closed-by-server" }), 1);
         if o.follower_answered {
             e.count("slow_body:follower_answered_after_body", 1);
+        }
+        if o.name.contains("pause shorter") && !o.canary && o.smuggled_opaques.is_empty() && (!o.follower_answered || !o.answers.iter().any(|a| a.contains("st=0x3"))) {
+            e.violation(
+                Viol::new(&["C13", "C09", "C12"], "patient-discard-failed", format!("{}: the server must wait for the rest of the body, answer 'too large' once and serve the follower; answers {:?}, connection {:?}", o.name, o.answers, o.end)),
+                json!({"engine":"slow-body","scenario":o.name,"answers":o.answers}),
+            );
         }
         if o.canary || !o.smuggled_opaques.is_empty() {
             e.violation(
@@ -914,6 +947,53 @@ pub fn idle_close_scenarios(shared: &Mutex<Evidence>) {
     }
 }
 
+/// The stream ends (FIN) in the middle of a header. There is nothing to wait for: the server must end the
+/// connection at once - not after its receive timeout, and without spinning until then.
+pub fn eof_mid_header_scenarios(shared: &Mutex<Evidence>) {
+    let mut outs: Vec<(usize, bool, End, u64, u64)> = vec![];
+    std::thread::scope(|s| {
+        let hs: Vec<_> = [1usize, 2, 8, 12, 23, 24 + 1, 24 + 23]
+            .into_iter()
+            .enumerate()
+            .map(|(i, n)| {
+                s.spawn(move || -> Option<(usize, bool, End, u64, u64)> {
+                    use std::io::Write;
+                    let multi = i % 2 == 1;
+                    let srv = Server::start(SrvCfg { idle_s: 30, workers: if multi { Some(2) } else { None }, ..Default::default() }).ok()?;
+                    let mut c = Cli::connect(srv.port).ok()?;
+                    let mut bytes = wire::simple(op::NOOP, 1).encode();
+                    bytes.extend(wire::store(op::SET, b"never", b"v", 0, 0, 2, 0).encode());
+                    c.s.write_all(&bytes[..n]).ok()?;
+                    c.half_close();
+                    let cpu0: u64 = crate::l3b::server_thread_cpu_total();
+                    let t0 = Instant::now();
+                    let end = c.read_to_end(Duration::from_secs(6));
+                    let ms = t0.elapsed().as_millis() as u64;
+                    let cpu = crate::l3b::server_thread_cpu_total().saturating_sub(cpu0);
+                    Some((n, multi, end, ms, cpu))
+                })
+            })
+            .collect();
+        for h in hs {
+            if let Ok(Some(o)) = h.join() {
+                outs.push(o);
+            }
+        }
+    });
+    let mut e = shared.lock().unwrap();
+    for (n, multi, end, ms, cpu) in outs {
+        e.evaluations += 1;
+        e.count("eof_mid_header:scenarios", 1);
+        e.nontrivial.insert(fnv(format!("eof-mid-header:{}", n).as_bytes()));
+        if end != End::Eof && end != End::Reset {
+            e.violation(
+                Viol::new(&["C10", "C18", "C16"], "eof-mid-header-not-closed", format!("the client sent {} bytes (the stream ends inside a header) and closed its sending side; {} ms later the {} server (receive timeout 30 s) has not ended the connection ({:?}); its threads consumed {} clock ticks meanwhile", n, ms, if multi { "2-worker" } else { "current-thread" }, end, cpu)),
+                json!({"engine":"eof-mid-header","bytes":n,"multi_thread":multi,"cpu_ticks":cpu}),
+            );
+        }
+    }
+}
+
 /// "Nothing received after quit/quitq is executed" must also hold when the peer has already reset the
 /// connection by the time the server reaches the quit (closing the socket then fails). The window is
 /// produced with an injected delay: the connection task sleeps when it is handed the quit frame, the
@@ -989,11 +1069,44 @@ pub const RULE_C13: &str = "a case is one pipeline [set a] [frame with body arou
 
 const BIG_OPS: [u8; 14] = [op::SET, op::GET, op::INCR, op::NOOP, op::APPEND, op::QUIT, op::ADD, op::QUITQ, op::DELETE, op::SETQ, op::GETKQ, op::TOUCH, op::FLUSH, op::VERSION];
 
+/// "A request whose body is within the limit is never rejected for size" - also when the store's memory limit
+/// (random eviction) is smaller than the item size limit: the item is stored (C14 lets the store hold the limit
+/// plus the record just written).
+fn within_limit_under_small_memory(shared: &Mutex<Evidence>) {
+    for (mem, size) in [(65_536u64, 100 << 10), (65_536, 300 << 10), (1000, 5000), (65_536, 65_513)] {
+        let srv = match Server::start(SrvCfg { item_limit: 1 << 20, store: StoreKind::Random(mem), ..Default::default() }) {
+            Ok(s) => s,
+            Err(_) => continue,
+        };
+        let mut c = match Cli::connect(srv.port) {
+            Ok(c) => c,
+            Err(_) => continue,
+        };
+        let value: Vec<u8> = (0..size).map(|i| (i % 251) as u8).collect();
+        let r = ask(&mut c, &wire::store(op::SET, b"wide", &value, 7, 0, 1, 0));
+        let g = ask(&mut c, &wire::get(op::GET, b"wide", 2));
+        let mut e = shared.lock().unwrap();
+        e.evaluations += 1;
+        e.count("within_limit_under_small_memory:cases", 1);
+        e.nontrivial.insert(fnv(format!("small-mem:{}:{}", mem, size).as_bytes()));
+        let ok = r.as_ref().map(|r| r.status == st::OK).unwrap_or(false) && g.as_ref().map(|g| g.status == st::OK && g.value == value).unwrap_or(false);
+        if !ok {
+            e.violation(
+                Viol::new(&["C13", "C01"], "within-limit-refused", format!("item limit 1 MiB, random eviction with a memory limit of {} bytes: set of a {}-byte value answered {:?}, get answered {:?}", mem, size, r.map(|r| r.brief()), g.map(|g| format!("st={:#x} len={}", g.status, g.value.len())))),
+                json!({"engine":"toolarge-small-memory","memory_limit":mem,"value":size}),
+            );
+        }
+    }
+}
+
 pub fn run_c13(ctx: &Ctx) -> i32 {
     install_quiet_panic_hook();
     let mut ev0 = Evidence::new(ctx, "exploration", RULE_C13);
     ev0.assumptions = vec!["in-process MemcacheTcpServer on loopback; achieved read splits observed through the conn.* hooks".into()];
     let shared = Mutex::new(ev0);
+    if ctx.prop == "C13" && ctx.only_case.is_none() {
+        within_limit_under_small_memory(&shared);
+    }
     let limits: Vec<u32> = if ctx.thorough() { vec![1024, 4096, 65536, 1 << 20, 4 << 20] } else { vec![1024, 65536] };
     // "for every opcode": an oversized quit / quitq is refused like any other request and does not end the connection
     // every opcode the protocol knows (implemented, quiet, unimplemented): "both hold for every opcode"
@@ -1287,7 +1400,14 @@ pub fn run_sock_frames(ctx: &Ctx) -> i32 {
                     // a storing request whose body is as large as the item limit allows (or a few bytes less), with
                     // pipelined followers behind it: the largest amount of bytes a connection legitimately buffers
                     let near_at = if limit < (1 << 20) && rng.gen_bool(0.6) { Some(rng.gen_range(0..nf.min(3))) } else { None };
+                    // under the default limit: now and then a value of 70..200 KiB in the middle of the stream
+                    // (what a connection buffers for it is far above its usual read buffer)
+                    let large_at = if limit == (1 << 20) && rng.gen_bool(0.25) { Some(rng.gen_range(0..nf)) } else { None };
                     for i in 0..nf {
+                        if large_at == Some(i) {
+                            let value = vec![b'L'; rng.gen_range(70_000..200_000)];
+                            wire::store(op::SET, b"key3", &value, 4, 0, 0x3000 + i as u32, 0).encode_into(&mut stream);
+                        }
                         if near_at == Some(i) {
                             let key: &[u8] = [&b"a"[..], b"bb", b"key3"][rng.gen_range(0..3)];
                             let body = limit as usize - [0usize, 0, 1, 7, 24, 40][rng.gen_range(0..6)];
@@ -1502,6 +1622,9 @@ pub fn run_sock_frames(ctx: &Ctx) -> i32 {
     if matches!(ctx.prop.as_str(), "C11") && ctx.only_case.is_none() {
         idle_close_scenarios(&shared);
     }
+    if matches!(ctx.prop.as_str(), "C10" | "C09") && ctx.only_case.is_none() {
+        eof_mid_header_scenarios(&shared);
+    }
     shared.into_inner().unwrap().finish()
 }
 
@@ -1706,6 +1829,55 @@ pub fn run_bloat(ctx: &Ctx) -> i32 {
             }
         }
     }
+    // the other direction: a client pipelines many gets of a large item and does not read. What the server holds
+    // for that connection must stay bounded (the socket's back-pressure has to reach the request loop): it may
+    // not execute the whole pipeline and keep every response in memory
+    for flavour in [None, Some(2usize)] {
+        let srv = match Server::start(SrvCfg { item_limit: 2 << 20, workers: flavour, ..Default::default() }) {
+            Ok(s) => s,
+            Err(_) => continue,
+        };
+        let mut c = match Cli::connect(srv.port) {
+            Ok(c) => c,
+            Err(_) => continue,
+        };
+        let value = vec![b'r'; 1 << 20];
+        if ask(&mut c, &wire::store(op::SET, b"big", &value, 0, 0, 1, 0)).map(|r| r.status != st::OK).unwrap_or(true) {
+            continue;
+        }
+        drop(value);
+        c.rx.clear();
+        c.rx.shrink_to_fit();
+        std::thread::sleep(Duration::from_millis(50));
+        let base = crate::alloc::live();
+        crate::alloc::reset_peak();
+        let n = 64usize;
+        let mut reqs = vec![];
+        for i in 0..n {
+            wire::get(op::GET, b"big", 100 + i as u32).encode_into(&mut reqs);
+        }
+        use std::io::Write;
+        let _ = c.s.write_all(&reqs);
+        std::thread::sleep(Duration::from_millis(1500));
+        let growth = crate::alloc::peak().saturating_sub(base);
+        // one response being written + what the kernel's socket buffers take is not heap; 8 MiB is generous
+        let bound = 8usize << 20;
+        let describe = json!({"engine":"bloat","scenario":"64 pipelined gets of a 1 MiB item, client not reading","runtime":format!("{:?}",flavour),"heap_growth":growth,"bound":bound});
+        ev.evaluations += 1;
+        ev.nontrivial.insert(fnv(format!("bloat-unread:{:?}", flavour).as_bytes()));
+        ev.count("unread_pipeline:heap_growth_bytes", growth as u64);
+        if growth > bound {
+            ev.violation(
+                Viol::new(&["C10"], "response-queue-bloat", format!("heap grew by {} bytes while a client that had pipelined {} gets of a 1 MiB item was not reading (bound {}): responses are being held in memory instead of the request loop feeling the back-pressure", growth, n, bound)),
+                describe,
+            );
+        }
+        // then the client reads: everything must still arrive
+        c.read_frames(n, Duration::from_secs(30));
+        if crate::sock::count_frames(&c.rx) != n {
+            ev.inconclusive.push(format!("unread-pipeline scenario: only {} of {} responses arrived afterwards", crate::sock::count_frames(&c.rx), n));
+        }
+    }
     ev.finish()
 }
 
@@ -1721,4 +1893,89 @@ pub fn run_flush_order(ctx: &Ctx) -> i32 {
     let shared = Mutex::new(ev0);
     flush_order_scenarios(ctx, &shared);
     shared.into_inner().unwrap().finish()
+}
+
+// ---------------------------------------------------------------------------
+// C06 leg: append / prepend results that reach the item size limit (socket level: the limit is configured
+// in the server, not in the store)
+
+pub const RULE_APPENDLIMIT: &str = "a case is one (item limit, append | prepend, loud | quiet, size of the result relative to the limit): an item is stored, a suffix/prefix is added so that the resulting value is limit-30 .. limit bytes long (every request body is within the limit), the result is read back; the command must succeed and the value must be exactly old+suffix resp. prefix+old with the item's flags; non-trivial always; distinct by the case tuple";
+
+pub fn run_append_limit(ctx: &Ctx) -> i32 {
+    install_quiet_panic_hook();
+    let mut ev = Evidence::new(ctx, "exploration", RULE_APPENDLIMIT);
+    ev.assumptions = vec!["in-process MemcacheTcpServer on loopback; the item limit bounds request bodies, results may be as large as the limit".into()];
+    for (li, limit) in [1024u32, 4096, 65536].into_iter().enumerate() {
+        for policy in [StoreKind::Plain, StoreKind::Random(1 << 30)] {
+            let srv = match Server::start(SrvCfg { item_limit: limit, store: policy, workers: if li % 2 == 0 { None } else { Some(2) }, ..Default::default() }) {
+                Ok(s) => s,
+                Err(e) => {
+                    ev.inconclusive.push(format!("server start: {}", e));
+                    continue;
+                }
+            };
+            let mut c = match Cli::connect(srv.port) {
+                Ok(c) => c,
+                Err(_) => continue,
+            };
+            let mut n = 0u32;
+            for append in [true, false] {
+                for quiet in [false, true] {
+                    for short in [30usize, 25, 24, 23, 12, 1, 0] {
+                        n += 1;
+                        let key = format!("al-{}", n).into_bytes();
+                        let total = limit as usize - short;
+                        let add_len = 64usize;
+                        let old: Vec<u8> = (0..total - add_len).map(|i| b'a' + (i % 26) as u8).collect();
+                        let add: Vec<u8> = (0..add_len).map(|i| b'A' + (i % 26) as u8).collect();
+                        ev.evaluations += 1;
+                        ev.nontrivial.insert(fnv(format!("{}:{:?}:{}:{}:{}", limit, policy, append, quiet, short).as_bytes()));
+                        let describe = json!({"engine":"appendlimit","limit":limit,"store":format!("{:?}",policy),"append":append,"quiet":quiet,"result_len":total});
+                        let r0 = ask(&mut c, &wire::store(op::SET, &key, &old, 0xabc, 0, n, 0));
+                        if r0.map(|r| r.status != st::OK).unwrap_or(true) {
+                            ev.violation(Viol::new(&["C13", "C06"], "within-limit-store-refused", format!("set of a {}-byte value under limit {} failed", old.len(), limit)), describe);
+                            continue;
+                        }
+                        let opc = match (append, quiet) {
+                            (true, false) => op::APPEND,
+                            (true, true) => op::APPENDQ,
+                            (false, false) => op::PREPEND,
+                            (false, true) => op::PREPENDQ,
+                        };
+                        use std::io::Write;
+                        let mut req = wire::concat(opc, &key, &add, 1000 + n, 0).encode();
+                        req.extend(wire::get(op::GET, &key, 2000 + n).encode());
+                        let _ = c.s.write_all(&req);
+                        c.sent += req.len() as u64;
+                        c.read_frames(crate::sock::count_frames(&c.rx) + if quiet { 1 } else { 2 }, Duration::from_secs(5));
+                        let rs = parse_prefix(&c.rx);
+                        let ans = rs.iter().find(|r| r.opaque == 1000 + n).cloned();
+                        let got = rs.iter().find(|r| r.opaque == 2000 + n).cloned();
+                        let want: Vec<u8> = if append { [old.clone(), add.clone()].concat() } else { [add.clone(), old.clone()].concat() };
+                        let cmd_ok = if quiet { ans.is_none() } else { ans.as_ref().map(|r| r.status == st::OK).unwrap_or(false) };
+                        let val_ok = got.as_ref().map(|r| r.status == st::OK && r.value == want && r.flags() == Some(0xabc)).unwrap_or(false);
+                        ev.count("append_limit:results_checked", 1);
+                        if !cmd_ok || !val_ok {
+                            ev.violation(
+                                Viol::new(
+                                    &["C06", "C13"],
+                                    "result-at-limit",
+                                    format!(
+                                        "limit {}: {} of {} bytes to an item of {} bytes (result {} bytes = limit - {}): answered {:?}, read back {:?}",
+                                        limit, op::name(opc), add_len, old.len(), total, short, ans.map(|r| r.brief()), got.map(|r| format!("st={:#x} len={} flags={:?}", r.status, r.value.len(), r.flags()))
+                                    ),
+                                ),
+                                describe,
+                            );
+                        }
+                        c.rx.clear();
+                    }
+                }
+            }
+        }
+    }
+    for p in kv::take_server_panics() {
+        ev.violation(Viol::new(&["C10", "C06"], "panic-in-server", p), json!({"engine":"appendlimit"}));
+    }
+    ev.finish()
 }
